@@ -908,3 +908,95 @@ def place_ty_of(body, place):
     from .satlayer import place_ty
 
     return place_ty(body, place)
+
+
+# ------------------------------------------------------------------------------------------
+# contradiction rule: the callers of one function read its tuple result the same way
+
+
+def rule_tuple_components_consistent(ctx):
+    prog = ctx.prog
+    r = ctx.rule(
+        "tuple-components-consistent",
+        "when a solver helper returns a tuple with several components of one scalar type (e.g. `(Vec<bool>, usize, usize)`), every call site "
+        "uses each component in the same role (what it is compared with): two callers that swap two same-typed components cannot both be right",
+    )
+    n = 0
+    for t in sorted(prog.lib_bodies(), key=lambda x: x.id):
+        if t.kind == "closure" or not (t.path.startswith("solvers::") or "<solvers::" in t.path.split(" as ")[0]):
+            continue
+        m = re.match(r"^\((.*)\)$", t.ret_ty)
+        if not m:
+            continue
+        comps = [x.strip() for x in _split_top(m.group(1))]
+        same = [i for i, ty in enumerate(comps) if ty in ("usize", "isize", "bool") and comps.count(ty) >= 2]
+        if len(same) < 2:
+            continue
+        sites = [cs for cs in prog.callers_of(t)]
+        if len(sites) < 2:
+            continue
+        n += 1
+        sigs = {}
+        for cs in sites:
+            b = cs.body
+            res = cs.node["dst"]["l"]
+            for i in same:
+                sig = set()
+                # locals holding component i
+                holders = set()
+                for st in b.sites():
+                    nd = st.node
+                    if st.si is not None and nd["k"] == "assign" and nd["rv"]["k"] == "use":
+                        q = op_place(nd["rv"]["ops"][0])
+                        if q is not None and q["l"] == res and q["p"] and str(place_fields(q)[-1]) == str(i):
+                            holders.add(nd["dst"]["l"])
+                for st in b.sites():
+                    nd = st.node
+                    if st.si is None or nd["k"] != "assign" or nd["rv"]["k"] != "binop" or nd["rv"]["op"] not in ("Eq", "Ne", "Lt", "Le", "Gt", "Ge"):
+                        continue
+                    ops = nd["rv"]["ops"]
+                    for a, other in ((ops[0], ops[1]), (ops[1], ops[0])):
+                        pa = op_place(a)
+                        if pa is None or pa["p"]:
+                            continue
+                        roots, _, _ = data_deps(b, a, through_calls=False)
+                        if not (roots & holders or pa["l"] in holders):
+                            continue
+                        k = op_const(other)
+                        if k is not None:
+                            sig.add((nd["rv"]["op"], "const:%s" % (k.get("int", k.get("bool")))))
+                        else:
+                            _, calls, _ = data_deps(b, other)
+                            names = sorted({callee_decl(callee_of(c)).rsplit("::", 1)[-1] for c in calls})
+                            sig.add((nd["rv"]["op"], "calls:%s" % ",".join(names[:3])))
+                sigs.setdefault(i, {})[(b.id, cs.bb)] = (frozenset(sig), cs)
+        bad = []
+        for i, per_site in sigs.items():
+            distinct = {sg for sg, _ in per_site.values() if sg}
+            if len(distinct) > 1:
+                bad.append((i, per_site))
+        if not bad:
+            r.ok(t.id, "%d call sites read components %s consistently" % (len(sites), same), t.loc())
+        for i, per_site in bad:
+            desc = sorted("%s: %s" % (prog.enclosing_fn(cs.body).path.rsplit("::", 1)[-1], sorted(sg)) for sg, cs in per_site.values())
+            any_site = sorted(per_site.values(), key=lambda x: x[1].loc() or "")[0][1]
+            r.violation(t.id, "component#%d-roles-differ" % i, "the callers of %s use component %d of its result in different roles (%s): one of them has the components swapped" % (t.path, i, "; ".join(desc)), any_site.loc())
+    if n == 0:
+        r.note("no helper returning a tuple with repeated scalar types has two call sites")
+
+
+def _split_top(s):
+    out, depth, cur = [], 0, ""
+    for ch in s:
+        if ch in "(<[":
+            depth += 1
+        elif ch in ")>]":
+            depth -= 1
+        if ch == "," and depth == 0:
+            out.append(cur)
+            cur = ""
+        else:
+            cur += ch
+    if cur.strip():
+        out.append(cur)
+    return out
